@@ -424,6 +424,39 @@ pub fn served_nodes(
     };
     message.get_closer_nodes().map(|nodes| nodes.to_vec())
 }
+/// A storing node's request handler that lives across calls (whatever it remembers from one request to the next is part of
+/// what it serves).
+pub struct LongLivedServer(crate::core::server::Server);
+impl LongLivedServer {
+    pub fn new() -> Self {
+        LongLivedServer(crate::core::server::Server::new(Default::default()))
+    }
+    /// The nodes listed in the answer to `request`, served from the given tables.
+    pub fn served_nodes(
+        &mut self,
+        table: &RoutingTable,
+        signed_peers_table: &RoutingTable,
+        from: SocketAddrV4,
+        request: RequestSpecific,
+    ) -> Option<Vec<Node>> {
+        let message = match self.0.handle_request(table, signed_peers_table, from, request) {
+            Some(MessageType::Response(response)) => Message {
+                transaction_id: 0,
+                message_type: MessageType::Response(response),
+                version: None,
+                read_only: false,
+                requester_ip: None,
+            },
+            _ => return None,
+        };
+        message.get_closer_nodes().map(|nodes| nodes.to_vec())
+    }
+}
+impl Default for LongLivedServer {
+    fn default() -> Self {
+        Self::new()
+    }
+}
 /// Age of a node entry's `last_seen` in virtual nanoseconds.
 pub fn node_age_ns(node: &Node) -> u64 {
     node.0.last_seen.elapsed().as_nanos() as u64
